@@ -81,6 +81,8 @@ func Clean(m *testing.M, opts ...CleanOpts) {
 	_ = m
 	runOnly := flag.Lookup("test.run").Value.String()
 	count, _ := strconv.Atoi(flag.Lookup("test.count").Value.String())
+	// the runner can have iterated fewer times than -count asked for
+	count = min(testsRegistry.timesRun(count), standaloneTestsRegistry.timesRun(count))
 	registeredStandaloneTests := occurrences(
 		standaloneTestsRegistry.cleanup,
 		count,
